@@ -455,7 +455,9 @@ static void report_diff(struct uftrace_data *handle, struct uftrace_opts *opts)
 
 	if (open_data_file(&dummy_opts, &data.handle) < 0) {
 		pr_warn("cannot open record data: %s: %m\n", opts->diff);
-		goto out;
+		/* open_data_file() has released the handle already */
+		destroy_diff_nodes(&base_tree, &pair_tree);
+		return;
 	}
 
 	fstack_setup_filters(&dummy_opts, &data.handle);
